@@ -202,7 +202,9 @@ func dRel(g *G) {
 			k = 5
 		}
 		wide := c
-		wide.Emin, wide.Emax = -100000, 100000 // both computations must stay in the normal range
+		if g.R.bool() {
+			wide.Emin, wide.Emax = -100000, 100000 // both computations must stay in the normal range
+		} // else: the case's own tight range; the spec compares only pairs whose results are both normal
 		for _, op := range []string{"add", "sub", "mul", "quo", "rem"} {
 			g.emit(gPair("scale", op, wide, x, y, 0, k), "scale/"+op)
 		}
@@ -322,6 +324,10 @@ func relCases(g *G, n int, f func(op string, c Ctx, x, y Dec, q int)) {
 		}
 		if g.R.Intn(6) == 0 {
 			y = x
+		}
+		if g.R.Intn(25) == 0 {
+			ds := dirtySpecials()
+			x = ds[g.R.Intn(len(ds))]
 		}
 		op := allOps[g.R.Intn(len(allOps))]
 		switch op {
